@@ -1,4 +1,169 @@
+/-
+  C07 — PROPERTY THEOREMS (statements use only Model.lean and Spec.lean;
+  helper lemmas live in Lemmas.lean).
+
+  Property: "Integer <-> text conversion is exact and invertible for every
+  value and base.  Every integer of every supported width (8..64 bit, signed
+  and unsigned) renders in every base 2..36 to the canonical digit string
+  (optional '-', no leading zeros, NUL terminated, returned pointer at the
+  terminator), identical to a reference rendering, writing no more than the
+  digits need.  Parsing that text in the same base returns the original value,
+  accepts letters of either case, stops at the first character that cannot
+  continue the number and reports that position.  The libc-style
+  itoa/utoa/ltoa/ultoa shims and the debug-print decimal/hex/binary renderers
+  emit the same canonical text."
+
+  Reading guide.  A buffer is the list of bytes from `buf` to the end of the
+  object; a routine returns `some (memory', offset)` or `none` when it would
+  touch a byte outside the list.  "`f v m b = some (text ++ 0 :: m.drop (L+1), L)`
+  for every `m` with at least `L + 1` bytes" therefore says at once: the text
+  is the canonical one, it is NUL terminated, the returned pointer is the
+  terminator, exactly `L + 1` bytes are written (everything behind them is
+  unchanged, and a buffer of exactly `L + 1` bytes suffices).
+-/
 import IgrisModel.C07.Lemmas
 namespace Igris.C07
-theorem placeholder_tmp : True := trivial
+open Igris.Proto
+
+/-! ## A. the reference: `digits` is positional notation, and it is canonical -/
+
+/-- the digits denote the number -/
+theorem digits_value (b n : Nat) (hb : 2 ≤ b) : ofDigits b (digits b n) = n := ofDigits_digits hb n
+
+/-- every digit is below the base -/
+theorem digits_lt_base (b n : Nat) (hb : 2 ≤ b) : ∀ d ∈ digits b n, d < b := digits_lt hb n
+
+/-- no leading zero: zero is the single digit 0, every other number starts with a non-zero digit -/
+theorem digits_no_leading_zero (b n : Nat) (hb : 2 ≤ b) :
+    (n = 0 → digits b n = [0]) ∧ (n ≠ 0 → (digits b n).head? ≠ some 0) := by
+  refine ⟨fun h => by subst h; simp [digits, lsd_small (show 0 < b by omega)], fun hn => ?_⟩
+  have h := lsd_getLast_ne_zero hb n hn
+  rw [digits, List.head?_reverse, List.getLast?_eq_some_getLast (lsd_ne_nil b n)]
+  intro hc
+  exact h (Option.some.inj hc)
+
+/-- canonical = unique: ANY digit string without a leading zero that denotes `n` is `digits b n` -/
+theorem digits_unique (b : Nat) (hb : 2 ≤ b) (ds : List Nat) (hne : ds ≠ []) (hlt : ∀ d ∈ ds, d < b)
+    (hlead : ds = [0] ∨ ds.head? ≠ some 0) : digits b (ofDigits b ds) = ds := by
+  have hr : ds.reverse ≠ [] := by simpa using hne
+  have h1 : ofDigits b ds = ofLsd b ds.reverse := by
+    have := ofDigits_reverse b ds.reverse; rwa [List.reverse_reverse] at this
+  have hcond : ds.reverse = [0] ∨ ds.reverse.getLast hr ≠ 0 := by
+    rcases hlead with h | h
+    · left; simp [h]
+    · right
+      intro hc
+      apply h
+      rw [List.getLast_reverse] at hc
+      rw [List.head?_eq_some_head hne, hc]
+  rw [digits, h1, lsd_ofLsd hb ds.reverse hr (fun d hd => hlt d (by simpa using hd)) hcond, List.reverse_reverse]
+
+/-- a 64-bit magnitude has at most 64 digits in any base ≥ 2: the text of any supported
+    value, with sign and terminator, fits 66 bytes -/
+theorem digits_length_le_64 (b n : Nat) (hb : 2 ≤ b) (hn : n < 2 ^ 64) : (digits b n).length ≤ 64 := by
+  have := lsd_length_le hb 64 n hn
+  simpa [digits] using this
+
+theorem canonInt_bytes_le_66 (up : Bool) (b : Nat) (hb : 2 ≤ b) (v : Int) (hv : v.natAbs < 2 ^ 64) :
+    (canonInt up b v).length + 1 ≤ 66 := by
+  have := digits_length_le_64 b v.natAbs hb hv
+  by_cases h : v < 0
+  · rw [canonInt_length_neg _ _ _ h]; omega
+  · rw [canonInt_length_nonneg _ _ _ h]; omega
+
+/-! ## B. rendering (`toa_canonical`): every width, signedness, value and base 2..36 -/
+
+/-- igris_i64toa: lower-case canonical text of the signed value, NUL terminated, returned
+    offset at the terminator, exactly `length + 1` bytes written -/
+theorem i64toa_canonical (num : BitVec 64) (base : BitVec 8) (hb : 2 ≤ base.toNat ∧ base.toNat ≤ 36)
+    (m : List Byte) (hm : (canonInt false base.toNat num.toInt).length + 1 ≤ m.length) :
+    i64toa num m base
+      = some (canonInt false base.toNat num.toInt ++ 0#8 :: m.drop ((canonInt false base.toNat num.toInt).length + 1),
+              (canonInt false base.toNat num.toInt).length) :=
+  i64toa_spec num base hb.1 hb.2 m hm
+
+theorem i32toa_canonical (num : BitVec 32) (base : BitVec 8) (hb : 2 ≤ base.toNat ∧ base.toNat ≤ 36)
+    (m : List Byte) (hm : (canonInt false base.toNat num.toInt).length + 1 ≤ m.length) :
+    i32toa num m base
+      = some (canonInt false base.toNat num.toInt ++ 0#8 :: m.drop ((canonInt false base.toNat num.toInt).length + 1),
+              (canonInt false base.toNat num.toInt).length) := by
+  have e : (num.signExtend 64).toInt = num.toInt := BitVec.toInt_signExtend_of_le (by omega)
+  have := i64toa_spec (num.signExtend 64) base hb.1 hb.2 m (by rw [e]; exact hm)
+  rw [e] at this; exact this
+
+theorem i16toa_canonical (num : BitVec 16) (base : BitVec 8) (hb : 2 ≤ base.toNat ∧ base.toNat ≤ 36)
+    (m : List Byte) (hm : (canonInt false base.toNat num.toInt).length + 1 ≤ m.length) :
+    i16toa num m base
+      = some (canonInt false base.toNat num.toInt ++ 0#8 :: m.drop ((canonInt false base.toNat num.toInt).length + 1),
+              (canonInt false base.toNat num.toInt).length) := by
+  have e : (num.signExtend 64).toInt = num.toInt := BitVec.toInt_signExtend_of_le (by omega)
+  have := i64toa_spec (num.signExtend 64) base hb.1 hb.2 m (by rw [e]; exact hm)
+  rw [e] at this; exact this
+
+theorem i8toa_canonical (num : BitVec 8) (base : BitVec 8) (hb : 2 ≤ base.toNat ∧ base.toNat ≤ 36)
+    (m : List Byte) (hm : (canonInt false base.toNat num.toInt).length + 1 ≤ m.length) :
+    i8toa num m base
+      = some (canonInt false base.toNat num.toInt ++ 0#8 :: m.drop ((canonInt false base.toNat num.toInt).length + 1),
+              (canonInt false base.toNat num.toInt).length) := by
+  have e : (num.signExtend 64).toInt = num.toInt := BitVec.toInt_signExtend_of_le (by omega)
+  have := i64toa_spec (num.signExtend 64) base hb.1 hb.2 m (by rw [e]; exact hm)
+  rw [e] at this; exact this
+
+/-- igris_u64toa: UPPER-case canonical text of the unsigned value -/
+theorem u64toa_canonical (num : BitVec 64) (base : BitVec 8) (hb : 2 ≤ base.toNat ∧ base.toNat ≤ 36)
+    (m : List Byte) (hm : (canonNat true base.toNat num.toNat).length + 1 ≤ m.length) :
+    u64toa num m base
+      = some (canonNat true base.toNat num.toNat ++ 0#8 :: m.drop ((canonNat true base.toNat num.toNat).length + 1),
+              (canonNat true base.toNat num.toNat).length) :=
+  u64toa_spec num base hb.1 hb.2 m hm
+
+theorem u32toa_canonical (num : BitVec 32) (base : BitVec 8) (hb : 2 ≤ base.toNat ∧ base.toNat ≤ 36)
+    (m : List Byte) (hm : (canonNat true base.toNat num.toNat).length + 1 ≤ m.length) :
+    u32toa num m base
+      = some (canonNat true base.toNat num.toNat ++ 0#8 :: m.drop ((canonNat true base.toNat num.toNat).length + 1),
+              (canonNat true base.toNat num.toNat).length) := by
+  have e : (num.zeroExtend 64).toNat = num.toNat := by
+    simp [BitVec.zeroExtend_eq_setWidth]; have := num.isLt; omega
+  have := u64toa_spec (num.zeroExtend 64) base hb.1 hb.2 m (by rw [e]; exact hm)
+  rw [e] at this; exact this
+
+theorem u16toa_canonical (num : BitVec 16) (base : BitVec 8) (hb : 2 ≤ base.toNat ∧ base.toNat ≤ 36)
+    (m : List Byte) (hm : (canonNat true base.toNat num.toNat).length + 1 ≤ m.length) :
+    u16toa num m base
+      = some (canonNat true base.toNat num.toNat ++ 0#8 :: m.drop ((canonNat true base.toNat num.toNat).length + 1),
+              (canonNat true base.toNat num.toNat).length) := by
+  have e : (num.zeroExtend 64).toNat = num.toNat := by
+    simp [BitVec.zeroExtend_eq_setWidth]; have := num.isLt; omega
+  have := u64toa_spec (num.zeroExtend 64) base hb.1 hb.2 m (by rw [e]; exact hm)
+  rw [e] at this; exact this
+
+theorem u8toa_canonical (num : BitVec 8) (base : BitVec 8) (hb : 2 ≤ base.toNat ∧ base.toNat ≤ 36)
+    (m : List Byte) (hm : (canonNat true base.toNat num.toNat).length + 1 ≤ m.length) :
+    u8toa num m base
+      = some (canonNat true base.toNat num.toNat ++ 0#8 :: m.drop ((canonNat true base.toNat num.toNat).length + 1),
+              (canonNat true base.toNat num.toNat).length) := by
+  have e : (num.zeroExtend 64).toNat = num.toNat := by
+    simp [BitVec.zeroExtend_eq_setWidth]; have := num.isLt; omega
+  have := u64toa_spec (num.zeroExtend 64) base hb.1 hb.2 m (by rw [e]; exact hm)
+  rw [e] at this; exact this
+
+/-- never more than 66 bytes (sign + 64 binary digits + NUL), whatever the value and base -/
+theorem i64toa_bytes_le_66 (num : BitVec 64) (base : BitVec 8) (hb : 2 ≤ base.toNat) :
+    (canonInt false base.toNat num.toInt).length + 1 ≤ 66 :=
+  canonInt_bytes_le_66 false base.toNat hb num.toInt (natAbs_lt64 num)
+
+/-- a base outside 2..36: the empty string, returned pointer = buf (what the code does) -/
+theorem toa_base_out_of_range (num : BitVec 64) (base : BitVec 8) (h : base.toNat < 2 ∨ base.toNat > 36)
+    (x : Byte) (rest : List Byte) :
+    i64toa num (x :: rest) base = some (0#8 :: rest, 0) ∧ u64toa num (x :: rest) base = some (0#8 :: rest, 0) :=
+  ⟨i64toa_badbase num base h x rest, u64toa_badbase num base h x rest⟩
+
+-- the hypotheses are satisfiable, and the theorems compute what one expects
+example : canonInt false 10 (-42) = [0x2D#8, 0x34#8, 0x32#8] := by
+  simp [canonInt, canonNat, digits, lsd]; decide
+example : i64toa (BitVec.ofInt 64 (-42)) (List.replicate 4 0xA5#8) 10#8 = some ([0x2D#8, 0x34#8, 0x32#8, 0#8], 3) := by decide
+example : u64toa 255#64 (List.replicate 3 0xA5#8) 16#8 = some ([0x46#8, 0x46#8, 0#8], 2) := by decide
+-- a buffer one byte short faults (the NUL is really written)
+example : i64toa (BitVec.ofInt 64 (-42)) (List.replicate 3 0xA5#8) 10#8 = none := by decide
+
 end Igris.C07
